@@ -104,6 +104,19 @@ func c12Exec(c *fw.Ctx, cas c12Case) (nontrivial bool) {
 				all = append(all, msg{mb, id, a})
 			}
 		}
+		// one more mailbox in every case, whose name is written with upper-case letters (the stores
+		// keep names as given - an extension may choose such a name): an expired and a young message
+		for _, a := range []int{1, 4} {
+			date := now
+			if c12Ages[a] == "period+1ns" {
+				date = now.Add(-period - time.Nanosecond)
+			}
+			id, err := st.AddMessage(sys.Delivery("Archive@Example.COM", "f@x.test", []string{"t@x.test"}, "mixed", "Subject: r\r\n\r\nretention\r\n", date))
+			if err != nil {
+				panic("VERIF-INFRA add: " + err.Error())
+			}
+			all = append(all, msg{"Archive@Example.COM", id, a})
+		}
 		rs := storage.NewRetentionScanner(config.Storage{RetentionPeriod: period, RetentionSleep: sleep}, st)
 		err := rs.DoScan(context.Background())
 		fail := func(key, detail string) {
